@@ -113,3 +113,12 @@ CHECKS["C15"] = {
         _sub("TestC15_Attrs", 3000, 120000, sq=6, st=6),
     ],
 }
+
+CHECKS["C20"] = {
+    "level": "exploration",
+    "subs": [
+        _sub("TestC20_DDL", 6000, 240000, sq=16, st=12),
+        {"test": "FuzzSchemaParser", "kind": "fuzz", "fuzztime": "90s", "workers": 4, "cases": {"quick": 0, "thorough": 0},
+         "rule": "native go fuzzing of the exported columns parser (sql.Schema) with a seed corpus of valid and invalid specifications: no panic, no hang; distinct non-trivial = inputs that reached new coverage"},
+    ],
+}
